@@ -19,7 +19,8 @@ assertions they break and are asserted in small dedicated parts:
   f17_region  C05:postselected:lossy-or-distinguishable:table-raises
   f18_region  C05:lossy-superposition:coefficients-conjugated   (cross terms use conj(c))
   f19_region  C05:postselected-superposition:state_vector-raises (terms with fewer photons
-              than post-selected are dropped from one list but not from the other)
+              than post-selected are dropped from one list but not from the other; FIXED in
+              the repository by d92ebee -- not excluded any more, the part guards the fix)
   f20_region  C05:distinguishable-prep:cutoff-not-inferred       (DistinguishableNumberState
               neither infers nor validates the cutoff: n >= 4 photons with the default
               configuration give a table that sums to 0, or an IndexError at overlap 1)
@@ -270,7 +271,8 @@ def _call(f):
 # Regions excluded from the main search.  Once a fix is committed, delete its entry here (the
 # dedicated part then guards the fix, the main search covers the region); for trying a
 # candidate fix in a scratch tree use C05_ASSUME_FIXED=f15,f16,... with PIQUASSO_REPO.
-ALL_KNOWN = tuple(k for k in ("f15", "f16", "f17", "f18", "f19", "f20")
+# (f19 was fixed in the repository by commit d92ebee: no longer excluded, f19_region guards it.)
+ALL_KNOWN = tuple(k for k in ("f15", "f16", "f17", "f18", "f20")
                   if k not in os.environ.get("C05_ASSUME_FIXED", "").split(","))
 
 
@@ -410,11 +412,12 @@ def evaluate(case, ctx, exclude=ALL_KNOWN):
 
     # ---- cutoff bookkeeping
     if int(state._config.cutoff) != cred:
-        raise Violation(B_F20 if in_f20 else "C05:cutoff-bookkeeping",
+        raise Violation(B_F20 if in_f20 and "f20" not in exclude else "C05:cutoff-bookkeeping",
                         f"state cutoff {state._config.cutoff}, expected {c0} - {npost}"
                         + (f" (cutoff not given: NumberState infers n+1 = {nmax + 1}, "
                            f"DistinguishableNumberState keeps the default {default_cutoff}; its "
-                           f"table then misses every {nmax}-photon outcome)" if in_f20 else "")
+                           f"table then misses every {nmax}-photon outcome)"
+                           if in_f20 and "f20" not in exclude else "")
                         + f" {where}")
     if state.d != len(remaining):
         raise Violation("C05:mode-bookkeeping", f"state.d={state.d}, expected {len(remaining)}")
